@@ -31,6 +31,9 @@ const (
 )
 
 type eofSum struct {
+	// dataWithEOF: some return hands out a payload (slice / pointer / string result)
+	// together with an EOF-shaped error
+	dataWithEOF string
 	boundary, mid uint8
 	midWhy        []string // where the mid shapes come from (diagnostics)
 	manufactured  []string // io.EOF produced under a test for a different error
@@ -477,6 +480,52 @@ func (a *eofAnalysis) summary(fn *ssa.Function, depth int) *eofSum {
 			continue
 		}
 		c.shapesAt(v, ret, false)
+		// payload handed out together with an EOF-shaped error?
+		tmp := &eofSum{}
+		c2 := &eofCtx{a: a, fn: fn, c0: c.c0, sum: tmp, depth: depth, seen: map[ssa.Value]bool{}}
+		c2.shapesAt(v, ret, false)
+		viaCell := false
+		if u, ok := v.(*ssa.UnOp); ok && u.Op == token.MUL {
+			if _, isAlloc := u.X.(*ssa.Alloc); isAlloc {
+				viaCell = true // defer-spilled named result: which store reaches this return is not known
+			}
+		}
+		if tmp.boundary|tmp.mid != 0 && !viaCell {
+			for i := range ret.Results {
+				if i == ei {
+					continue
+				}
+				rv := retVal(ret, i)
+				if rv == nil {
+					continue
+				}
+				switch rv.Type().Underlying().(type) {
+				case *types.Slice, *types.Pointer, *types.Map:
+				default:
+					if b, ok := rv.Type().Underlying().(*types.Basic); !ok || b.Info()&types.IsString == 0 {
+						continue
+					}
+				}
+				if cst, ok := rv.(*ssa.Const); ok && (cst.IsNil() || cst.Value == nil || cst.Value.String() == `""`) {
+					continue
+				}
+				// results of a call handed on together with that call's own error:
+				// whatever the callee does
+				if ex, ok := rv.(*ssa.Extract); ok {
+					if x, ok := ex.Tuple.(*ssa.Call); ok {
+						if xv := errValuesOfCall(x); xv != nil && xv[v] {
+							if sc := x.Call.StaticCallee(); sc != nil && len(sc.Blocks) > 0 && isRepoPkgPath(fnPkgPath(sc)) {
+								if cs := a.summary(sc, depth+1); cs.dataWithEOF != "" {
+									s.dataWithEOF = cs.dataWithEOF
+								}
+							}
+							continue
+						}
+					}
+				}
+				s.dataWithEOF = a.p.Rel(ret.Pos())
+			}
+		}
 	}
 	sort.Strings(s.midWhy)
 	s.midWhy = uniqStrings(s.midWhy)
@@ -501,6 +550,12 @@ func uniqStrings(ss []string) []string {
 // as if nothing had failed — return without an error, or come back to the call for
 // the next unit?
 func cleanOutcome(fn *ssa.Function, call *ssa.Call, vals map[ssa.Value]bool, tests []eofTest, sh uint8) (bool, string) {
+	return cleanOutcomeAvoiding(fn, call, vals, tests, sh, nil)
+}
+
+// cleanOutcomeAvoiding: like cleanOutcome, but only along paths that execute none of
+// the instructions in avoid.
+func cleanOutcomeAvoiding(fn *ssa.Function, call *ssa.Call, vals map[ssa.Value]bool, tests []eofTest, sh uint8, avoid map[ssa.Instruction]bool) (bool, string) {
 	cut := cutSet{}
 	for _, b := range fn.Blocks {
 		if len(b.Instrs) == 0 {
@@ -532,6 +587,10 @@ func cleanOutcome(fn *ssa.Function, call *ssa.Call, vals map[ssa.Value]bool, tes
 		b := it.st.b
 		stop := false
 		for k := it.start; k < len(b.Instrs) && !stop; k++ {
+			if avoid != nil && avoid[b.Instrs[k]] {
+				stop = true
+				break
+			}
 			switch x := b.Instrs[k].(type) {
 			case *ssa.Call:
 				if x == call {
@@ -741,6 +800,45 @@ func init() {
 					}
 					if matched == 0 {
 						continue
+					}
+					// the callee may hand out the last unit together with io.EOF: then the
+					// clean path must look at the payload before it ends the loop
+					for _, g := range gs {
+						gsum := a.summary(g, 0)
+						if gsum.dataWithEOF == "" {
+							continue
+						}
+						var payload []ssa.Value
+						for _, ref := range *call.Referrers() {
+							if ex, ok := ref.(*ssa.Extract); ok {
+								switch ex.Type().Underlying().(type) {
+								case *types.Slice, *types.Pointer, *types.Map:
+									payload = append(payload, ex)
+								}
+							}
+						}
+						if len(payload) == 0 {
+							continue
+						}
+						uses := map[ssa.Instruction]bool{}
+						for v := range forward(payload, fwdOpts{}) {
+							if refs := v.Referrers(); refs != nil {
+								for _, ref := range *refs {
+									if _, dbg := ref.(*ssa.DebugRef); !dbg {
+										uses[ref] = true
+									}
+								}
+							}
+						}
+						for _, sh := range []uint8{shBare, shWrapped} {
+							if matched&sh == 0 {
+								continue
+							}
+							if ok, whyc := cleanOutcomeAvoiding(fn, call, vals, tests, sh, uses); ok {
+								r.bad(callKey(fn, call)+"|payload-with-eof", p.Rel(call.Pos()), "a unit handed out together with io.EOF is not thrown away", fmt.Sprintf("%s can return a payload together with an io.EOF-shaped error (%s), and here that outcome is taken as the end (%s) without the payload being looked at: the last object of the stream is dropped silently", funcName(g), gsum.dataWithEOF, whyc))
+								break
+							}
+						}
 					}
 					var mid, boundary uint8
 					var why []string
